@@ -270,6 +270,10 @@ var c13Extra = []string{
 	"<?php $a = 1 +; class { } function f( { } $b = 2;",
 	"<?php if ($a) : ?>html<?php elseif ($b): else: endif; echo \"x $a[0] {$b->c} ${d}\", <<<E\n $a\nE\n;",
 	"<?php $f = fn(A $x): ?B => static function () use (&$y): C { yield from [1, 2 => 3]; }; list($a, list($b)) = [1, [2]];",
+	// several candidates for one lookup: repeated resolution must give the same names every time
+	"<?php use Lib\\Http\\Client; use Vendor\\Net\\CLIENT; use function A\\foo; use function B\\FOO; use const C\\K; use const D\\k; new client; new Client\\X; Foo(); echo K, k;",
+	"<?php namespace N; use A\\{B, b as C, c}; use A\\B as c; new b; new C; new B\\D; function f(c $x): B {}",
+	"<?php use FUNCTION Foo\\bar; use CONST Foo\\BAZ; use A\\{Function f, CONST C, D}; use Function A\\{g}; bar(); BAZ; f(); C; new D; g();",
 	"#!shebang\n<html><?= $a ?>\n<?php /** doc */ abstract class A { const X = 1, Y = 2; public static $p = [1]; abstract protected function m(); } __halt_compiler(); tail",
 }
 
